@@ -26,7 +26,8 @@ func init() {
 		Rule: "engine 'merge' (instrumented copy; map ranges in tilecover and maptile driven by the choice stream): a generated same-zoom tile set (real covers of generated shapes, and block-structured " +
 			"sets that make complete and nearly complete sibling quads frequent) x target zoom <= set zoom is merged under 2-4 drawn iteration behaviours (order policy x whether keys created during the loop are produced) " +
 			"on fresh copies: results must be identical and satisfy the merge invariants in exact integer tile arithmetic. engine 'merge-plain': the same on the unmodified package under the runtime's own map order (uncontrolled). " +
-			"engine 'cover': point/line/polygon/collection covers of generated shapes (built in tile-fraction space at zoom 0-22: sub-tile, thin, multi-hundred-tile; star polygons with a hole) against sampled geometric oracles with 1e-6-tile guards. " +
+			"engine 'cover': point/line/polygon/collection covers of generated shapes (built in tile-fraction space at zoom 0-22: sub-tile, thin, multi-hundred-tile; star polygons with a hole) against sampled geometric oracles with 1e-6-tile guards; vertex-less geometries cover nothing; nested collections; a third of the runs compute further covers and empty returned sets (a cover belongs to the caller). " +
+			"A quarter of the merge runs first merge an unrelated set; sync.Pool hand-backs are choices of the run in the instrumented engine. " +
 			"Distinct = distinct event-log digest; non-trivial = a map-order choice was made or at least 3 geometric checks ran.",
 		StateDef: "distinct (engine, zoom, shape class, tile-count bucket, min zoom distance, count, behaviour set) tuples",
 		Engines: []props.Engine{
